@@ -255,6 +255,35 @@ m("c14_clamp_hi_len", "C14", r"C14\.ARITH:slice_items:clamp-bounds", "negative-s
   "tera/src/value/mod.rs", "let (lo, hi) = if step > 0 { (0, len) } else { (-1, len - 1) };", "let (lo, hi) = if step > 0 { (0, len) } else { (-1, len) };")
 m("c16_sort_unstable", "C16", r"C16\.ORDUSE:sort:stable", "plain sort uses sort_unstable_by",
   "tera/src/filters.rs", "        out.sort_by(|a, b| a.cmp(b));", "        out.sort_unstable_by(|a, b| a.cmp(b));")
+# ---------------------------------------------------------------- round 6
+m("c02_lookup_slice_err_undefined", "C02", r"C02\.LOOKUP:Slice:only-the-typed-lookup", "a failed slice reads as undefined",
+  "tera/src/vm/interpreter.rs", """                            Err(e) => {
+                                rendering_error!(e.to_string(), val_span);
+                            }""", """                            Err(_) => {
+                                state.stack.push(Value::undefined(), val_span);
+                            }""")
+m("c03_in_loop_last", "C03", r"C03\.LOOPVAR:parser:in-loop-is-any-enclosing-for", "is_in_loop looks at the innermost body only",
+  "tera/src/parsing/parser.rs", "        self.body_contexts.contains(&BodyContext::ForLoop)", "        self.body_contexts.last() == Some(&BodyContext::ForLoop)")
+m("c05_child_vm_template_override_none", "C05", r"C05\.SAME:render_component:child-vm-inherits:autoescape_override", "the component VM forgets the API escaping override",
+  "tera/src/vm/interpreter.rs", """            template: self.template,
+            autoescape_override: self.autoescape_override,
+            component_recursion_depth: depth,""", """            template: self.template,
+            autoescape_override: None,
+            component_recursion_depth: depth,""")
+m("c08_raw_trim_start_by_open_dash", "C08", r"C08\.RAW:body-trim_start-gated-by-raw-closing-dash", "the raw body's start is trimmed by `{%- raw`",
+  "tera/src/parsing/lexer.rs", "                                        if end_ws_start_tag {\n                                            result = result.trim_start();",
+  "                                        if ws {\n                                            result = result.trim_start();")
+m("c08_raw_token_flag_open_dash", "C08", r"C08\.RAW:token-trailing-flag-is-endraw-closing-dash", "RawContent's trailing flag is the dash that opens endraw",
+  "tera/src/parsing/lexer.rs", "                                            Token::RawContent(ws, result, ws_end),", "                                            Token::RawContent(ws, result, start_ws_end_tag),")
+m("c09_fused_writetop_template_flag", "C09", r"C09\.FUSED:WritePath:same-escape-decision-as-WriteTop", "WriteTop reads the template flag, ignoring the override",
+  "tera/src/vm/interpreter.rs", "                    if !self.autoescape_enabled() || top.is_safe() {", "                    if !self.template.autoescape_enabled || top.is_safe() {")
+m("c04_block_skip_unrelated", "C04", r"C04\.BLOCK:vm:every-block-renders", "a single-block render steps over blocks with another name at depth 0",
+  "tera/src/vm/interpreter.rs", "                    let block_chunk = &block_lineage[0];\n                    let old_chunk = state.chunk.replace(block_chunk);",
+  "                    if state.blocks.is_empty() && state.capture_block.is_some_and(|w| w != block_name.as_str()) {\n                        ip += 1;\n                        continue;\n                    }\n                    let block_chunk = &block_lineage[0];\n                    let old_chunk = state.chunk.replace(block_chunk);")
+m("c01_cfg_suffix_trimmed", "C01", r"C01\.CFG:suffix-rule:plain-ends_with", "the suffix rule compares a trimmed, lower-cased name",
+  "tera/src/tera.rs", "tpl_name.ends_with(s.as_ref())", "tpl_name.to_lowercase().ends_with(s.as_ref())")
+m("c10_add_file_ok_none", "C10", r"C10\.UNDO:add_file:returns-previous", "add_file reports 'was absent' whatever it replaced",
+  "tera/src/tera.rs", "        let previous = self.templates.insert(key.clone(), template);\n        Ok((key, previous))", "        let _previous = self.templates.insert(key.clone(), template);\n        Ok((key, None))")
 # ---------------------------------------------------------------- C05
 m("c05_iso_global", "C05", r"C05\.ISO:writer:global_context", "render_component gives the component the global context",
   "tera/src/vm/interpreter.rs", """        let mut state = State::new_with_chunk(&context, chunk);
@@ -537,7 +566,7 @@ m("c20_b64_alphabet", "C20", r"C20\.B64:decode:url_safe=True", "url-safe decoder
     &base64::alphabet::STANDARD,""")
 m("c20_b64_arm", "C20", r"C20\.B64:encode:url_safe=True,padded=False", "unpadded url-safe arm uses the padded engine",
   "tera-contrib/src/base64.rs", "(true, false) => general_purpose::URL_SAFE_NO_PAD.encode(val),", "(true, false) => general_purpose::URL_SAFE.encode(val),")
-m("c20_b64_padding", "C20", r"C20\.B64:decode:padding-indifferent:base64::STANDARD_DECODE", "standard decoder requires canonical padding",
+m("c20_b64_padding", "C20", r"C20\.B64:decode:padding-indifferent:url_safe=False", "standard decoder requires canonical padding",
   "tera-contrib/src/base64.rs", """    &base64::alphabet::STANDARD,
     general_purpose::GeneralPurposeConfig::new()
         .with_decode_padding_mode(base64::engine::DecodePaddingMode::Indifferent),""", """    &base64::alphabet::STANDARD,
